@@ -99,7 +99,7 @@ Proof.
 Qed.
 
 Definition fits (limit : N) (s : str) : Prop := (N.of_nat (List.length s) <= limit)%N.
-Definition sres_ok (limit : N) (b : nat) (r : Model.sres) : Prop :=
+Definition sres_ok (limit : N) (b : nat) (r : C17.Model.sres) : Prop :=
   match r with
   | SGo s _ => fits limit s
   | SOver s => (N.of_nat (List.length s) <= limit + N.of_nat b)%N
@@ -148,11 +148,12 @@ Proof.
 Qed.
 
 Theorem expand_size_bounded_l : forall t line,
-  List.length (fst (expand t line)) <= List.length line + 16384 + max_body t.
+  (N.of_nat (List.length (fst (expand t line))) <=
+   N.of_nat (List.length line) + max_growth + N.of_nat (max_body t))%N.
 Proof.
   intros t line. unfold expand.
-  pose proof (passes_size max_iterations (N.of_nat (List.length line) + max_growth)%N t line) as H.
-  unfold fits, max_growth in H. specialize (H ltac:(lia)). lia.
+  apply (passes_size max_iterations (N.of_nat (List.length line) + max_growth)%N t line).
+  unfold fits, max_growth. lia.
 Qed.
 
 (* the empty name: find("", pos) = pos and pos += 0 *)
@@ -268,6 +269,7 @@ Lemma nonempty_plain_step live c raw k :
   names_nonempty (tab c) -> names_nonempty (tab (plain_step live c raw k)).
 Proof.
   intros Hk H. destruct k; cbn [plain_step]; destruct live; rewrite ?tab_fail_line; cbn [tab add_err add_warn emit]; auto.
+  - (* PText *) destruct (expand (tab c) raw) as [e [|]]; cbn [tab add_err emit]; exact H.
   - (* PDefine *) unfold with_tab. cbn [tab]. destruct fn; cbn [tab add_warn].
     + apply nonempty_insert; [cbn; discriminate | exact H].
     + apply nonempty_insert; [cbn; intros _; eapply Hk; reflexivity | exact H].
